@@ -141,7 +141,7 @@ pub fn check_record(rec: &Value) -> Verdict {
 }
 
 pub fn run(ctx: &mut Ctx) {
-    ctx.rule = "Generated programs with resources of every kind and 1-3 pipelines, accepted and with one injected front-end error (undefined symbol, wrong constructor arity, parse errors, assignment to rvalue/const, unknown type), compiled for {DirectX, Vulkan, Vulkan+buffer addresses, Metal}; none mentions RSSL_TARGET_*. Checked: a diagnostic that is not a back-end diagnostic (hlsl/metal generate/format prefix) is the identical string on all targets; DirectX and Vulkan succeed or fail together; without buffer addresses their texts are equal after deleting `: register(...)` and `[[vk::...]]`; all successful targets report the same (stage, thread-group size) list, pipeline state and set of (binding name, descriptor type, count) apart from static samplers and buffer addresses. Non-trivial = at least 2 targets succeed on a program with >= 2 resource uses, or the error was injected after >= 1 valid declaration. Distinct = hash of the source.".into();
+    ctx.rule = "Generated programs with resources of every kind and 1-3 pipelines, accepted and with one injected front-end error (undefined symbol, wrong constructor arity, parse errors, assignment to rvalue/const, unknown type), compiled for {DirectX, Vulkan, Vulkan+buffer addresses, Metal}; none mentions RSSL_TARGET_*; some declare a constant buffer without members (empty, or emptied by #if 0). Checked: a diagnostic that is not a back-end diagnostic (hlsl/metal generate/format prefix) is the identical string on all targets; DirectX and Vulkan succeed or fail together; without buffer addresses their texts are equal after deleting `: register(...)` and `[[vk::...]]`; all successful targets report the same (stage, thread-group size) list, pipeline state and set of (binding name, descriptor type, count) apart from static samplers and buffer addresses. Non-trivial = at least 2 targets succeed on a program with >= 2 resource uses, or the error was injected after >= 1 valid declaration. Distinct = hash of the source.".into();
     if !ctx.replay_tier(&check_record) {
         return;
     }
@@ -157,6 +157,12 @@ pub fn run(ctx: &mut Ctx) {
             }
             if *site % 4 == 0 {
                 text.insert_str(0, "#if __HLSL_VERSION >= 2021\nstatic const uint hlsl_version_zz = __HLSL_VERSION;\n#endif\n");
+            }
+            // a constant buffer without members: written empty, or emptied by conditional compilation
+            match *site % 7 {
+                2 => text.insert_str(0, "cbuffer EmptyCB_zz {\n}\n"),
+                3 => text.insert_str(0, "cbuffer DebugCB_zz {\n#if 0\n    float4 debug_zz;\n#endif\n}\n"),
+                _ => {}
             }
             if *inj == 0 {
                 if let Some(t) = inject(&text, *which as usize, *site as usize) {
